@@ -76,7 +76,7 @@ func (n *Namer) column(t *rapid.T, label string) string {
 var prefixPool = []string{"home_", "w_", "x", "P_", "sub_"}
 
 // PKModes of the grammar.
-var PKModes = []string{"gorm-model", "id-name", "tag", "tag-autoinc", "string", "id-string", "int-noauto", "composite", "composite-auto"}
+var PKModes = []string{"gorm-model", "id-name", "tag", "tag-autoinc", "string", "id-string", "int-noauto", "composite", "composite-auto", "composite3", "composite-id"}
 
 var autoIncKinds = []*Kind{KInt, KInt8, KInt16, KInt32, KInt64, KUint, KUint8, KUint16, KUint32, KUint64}
 
@@ -333,13 +333,14 @@ func GenModel(t *rapid.T, o GenOptions) (*StructSpec, string) {
 	defer func() {
 		if !o.NoKeys {
 			crossName(t, s, o)
+			styleTags(t, s)
 			if o.Migration && rapid.IntRange(0, 3).Draw(t, "colindex") == 0 {
 				AddColumnNamedIndex(t, s, "colindex")
 			}
 		}
 	}()
 	if !o.NoKeys && !o.NoEmbedded {
-		shadow(t, s)
+		shadow(t, s, o)
 	}
 	pk := ""
 	if !o.NoKeys {
@@ -429,6 +430,26 @@ func keyFields(t *rapid.T, o GenOptions, mode string) []*FieldSpec {
 			{Name: name("pk1.name"), Kind: k1, PrimaryKey: true, DistinctValue: true},
 			{Name: name("pk2.name"), Kind: k2, PrimaryKey: true, DistinctValue: true},
 		}
+	case "composite3":
+		k1 := rapid.SampledFrom([]*Kind{KInt, KInt64, KUint32, KString}).Draw(t, "pk1.kind")
+		k3 := rapid.SampledFrom([]*Kind{KInt16, KUint64, KString, KInt}).Draw(t, "pk3.kind")
+		return []*FieldSpec{
+			{Name: name("pk1.name"), Kind: k1, PrimaryKey: true, DistinctValue: true},
+			{Name: name("pk2.name"), Kind: KString, PrimaryKey: true, DistinctValue: true},
+			{Name: name("pk3.name"), Kind: k3, PrimaryKey: true, DistinctValue: true},
+		}
+	case "composite-id":
+		// a key part named ID (the prioritized key; an integer one auto-increments) next to another key part
+		idKind := rapid.SampledFrom([]*Kind{KUint, KInt64, KInt, KString}).Draw(t, "pk.id.kind")
+		k2 := rapid.SampledFrom([]*Kind{KString, KInt, KUint16}).Draw(t, "pk2.kind")
+		fs := []*FieldSpec{
+			{Name: "ID", Kind: idKind, PrimaryKey: true, DistinctValue: true},
+			{Name: name("pk2.name"), Kind: k2, PrimaryKey: true, DistinctValue: true},
+		}
+		if rapid.Bool().Draw(t, "pk.swap") {
+			fs[0], fs[1] = fs[1], fs[0]
+		}
+		return fs
 	case "composite-auto":
 		k2 := rapid.SampledFrom([]*Kind{KInt, KInt16, KUint64, KString}).Draw(t, "pk2.kind")
 		fs := []*FieldSpec{
@@ -695,7 +716,7 @@ func crossName(t *rapid.T, s *StructSpec, o GenOptions) {
 		a := rapid.SampledFrom(as).Draw(t, fmt.Sprintf("crossname.a%d", i))
 		var bs []*FieldSpec
 		for _, c := range all {
-			if c.f != a && c.f.Name != a.Name {
+			if c.f != a && c.f.Name != a.Name && c.f.Name != "ID" { // (a column spelled "id"/"ID" would compete for gorm's default key lookup)
 				bs = append(bs, c.f)
 			}
 		}
@@ -729,10 +750,15 @@ func crossName(t *rapid.T, s *StructSpec, o GenOptions) {
 // struct (the Go idiom of overriding a promoted field): same Go name, same
 // column, declared after the embedded struct (sometimes before it). The
 // embedded struct is unprefixed and embedded once; the shadowed field is plain.
-func shadow(t *rapid.T, s *StructSpec) {
+func shadow(t *rapid.T, s *StructSpec, o GenOptions) {
 	if rapid.IntRange(0, 3).Draw(t, "shadow") != 0 {
 		return
 	}
+	shadowIn(t, s, o, 0, "shadow")
+}
+
+// shadowIn adds the overriding field for an embedded struct at position >= from.
+func shadowIn(t *rapid.T, s *StructSpec, o GenOptions, from int, label string) bool {
 	uses := map[*StructSpec]int{}
 	for _, f := range s.Fields {
 		if f.Embedded != nil {
@@ -745,7 +771,7 @@ func shadow(t *rapid.T, s *StructSpec) {
 	}
 	var cands []cand
 	for i, f := range s.Fields {
-		if f.Embedded == nil || f.Prefix != "" || uses[f.Embedded] > 1 || f.FixedType != nil {
+		if i < from || f.Embedded == nil || f.Prefix != "" || uses[f.Embedded] > 1 || f.FixedType != nil {
 			continue
 		}
 		for _, l := range f.Embedded.Fields {
@@ -755,17 +781,64 @@ func shadow(t *rapid.T, s *StructSpec) {
 		}
 	}
 	if len(cands) == 0 {
-		return
+		return false
 	}
-	c := rapid.SampledFrom(cands).Draw(t, "shadow.field")
-	kinds := append(append([]*Kind{c.leaf.Kind}, Scalars...), KNullString, KLabel, KindByName("*int64"))
-	outer := &FieldSpec{Name: c.leaf.Name, Column: c.leaf.Column, Kind: rapid.SampledFrom(kinds).Draw(t, "shadow.kind")}
+	c := rapid.SampledFrom(cands).Draw(t, label+".field")
+	// the overriding field is an ordinary leaf of the grammar: another kind, its own default /
+	// auto time / not null / unique / index tags (the shadowed one is plain)
+	outer := genLeaf(t, o, label+".outer", false)
+	if rapid.IntRange(0, 2).Draw(t, label+".samekind") == 0 && outer.Default == nil {
+		outer.Kind = c.leaf.Kind
+		outer.AutoTime, outer.Size, outer.Extra = "", 0, nil
+		if outer.DistinctValue && c.leaf.Kind.distinct == nil {
+			outer.DistinctValue, outer.Unique = false, false
+			if outer.Index == "uniqueIndex" || outer.Index == "index:,unique" {
+				outer.Index = "index"
+			}
+		}
+		if outer.Size > 0 && c.leaf.Kind.Family != FString {
+			outer.Size = 0
+		}
+	}
+	outer.Name, outer.Column = c.leaf.Name, c.leaf.Column
 	c.leaf.Shadowed = true
-	pos := c.pos + 1 + rapid.IntRange(0, len(s.Fields)-c.pos-1).Draw(t, "shadow.after")
-	if rapid.IntRange(0, 3).Draw(t, "shadow.before") == 0 {
-		pos = rapid.IntRange(0, c.pos).Draw(t, "shadow.pos")
+	pos := c.pos + 1 + rapid.IntRange(0, len(s.Fields)-c.pos-1).Draw(t, label+".after")
+	if from == 0 && rapid.IntRange(0, 3).Draw(t, label+".before") == 0 {
+		pos = rapid.IntRange(0, c.pos).Draw(t, label+".pos")
 	}
 	s.Fields = append(s.Fields, nil)
 	copy(s.Fields[pos+1:], s.Fields[pos:])
 	s.Fields[pos] = outer
+	return true
+}
+
+// styleTags varies the spelling of every field's tag: key case and blanks around the keys.
+func styleTags(t *rapid.T, s *StructSpec) {
+	if rapid.IntRange(0, 1).Draw(t, "tagspelling") != 0 {
+		return
+	}
+	seen := map[*StructSpec]bool{}
+	n := 0
+	var walk func(s *StructSpec)
+	walk = func(s *StructSpec) {
+		if seen[s] {
+			return
+		}
+		seen[s] = true
+		for _, f := range s.Fields {
+			if f.FixedType != nil {
+				continue
+			}
+			n++
+			label := fmt.Sprintf("tagspelling.%d", n)
+			f.TagSpace = rapid.IntRange(0, 2).Draw(t, label+".space")
+			if f.TagStyle == 0 && rapid.IntRange(0, 2).Draw(t, label+".case") == 0 {
+				f.TagStyle = 1
+			}
+			if f.Embedded != nil {
+				walk(f.Embedded)
+			}
+		}
+	}
+	walk(s)
 }
